@@ -25,12 +25,6 @@ Proof.
   rewrite partition_filter. f_equal. apply filter_ext_eq. intros x. symmetry. apply is_reduce_negb.
 Qed.
 
-Lemma In_removelast {A} (l : list A) x : In x (removelast l) -> In x l.
-Proof.
-  induction l as [|y l IH]; cbn [removelast]; [tauto|].
-  destruct l as [|z l]; [intros []|].
-  intros [H|H]; [left; exact H|right; apply IH; exact H].
-Qed.
 
 Lemma In_filter_In {A} (f : A -> bool) (l : list A) x : In x (filter f l) -> In x l.
 Proof. intros H. apply filter_In in H. tauto. Qed.
@@ -57,18 +51,16 @@ Proof.
   destruct Hx as [<-|Hx]; [exact Hf|apply IH; assumption].
 Qed.
 
-Lemma length1_singleton {A} (l : list A) : (length l =? 1) = true -> exists x, l = [x].
-Proof.
-  destruct l as [|x [|y l]]; cbn; intros H; try discriminate. exists x; reflexivity.
-Qed.
+
+Lemma drop_shifts_reduces acts : drop_shifts acts = filter is_reduce acts.
+Proof. unfold drop_shifts. apply filter_ext_eq. intros x. symmetry. apply is_reduce_negb. Qed.
 
 (* ------------------------------------------------------------------ *)
-(* the associativity match of the code is the documented table with the
-   terminal-level associativity flipped *)
+(* the associativity match of the code is the documented table *)
 
-Lemma assoc_arm_impl pa ta :
+Lemma assoc_arm_decide pa ta :
   assoc_arm pa ta =
-  match assoc_decision (effective_assoc pa (flip_assoc ta)) with
+  match assoc_decision (effective_assoc pa ta) with
   | Some KeepReduce => ArmReduce
   | Some KeepShift => ArmShift
   | _ => ArmPrefer
@@ -86,12 +78,9 @@ Proof.
   - reflexivity.
 Qed.
 
-(* the code's decision for the production [pr] against a shift of priority [sprio] *)
-Definition code_decision (cfg : rsettings) (pr : prod) (tm : term) (sprio : nat) : decision :=
-  decide_impl (p_prio pr) sprio (p_assoc pr) (t_assoc tm) (rhs_is_empty pr)
-              (rs_prefer_shifts cfg) (rs_prefer_shifts_over_empty cfg) (p_nops pr) (p_nopse pr).
-
-Definition doc_decision (cfg : rsettings) (pr : prod) (tm : term) (sprio : nat) : decision :=
+(* the documented decision for the production [pr] against a shift of priority [sprio]
+   on the terminal [tm] *)
+Definition cell_decision (cfg : rsettings) (pr : prod) (tm : term) (sprio : nat) : decision :=
   decide (p_prio pr) sprio (p_assoc pr) (t_assoc tm) (rhs_is_empty pr)
          (rs_prefer_shifts cfg) (rs_prefer_shifts_over_empty cfg) (p_nops pr) (p_nopse pr).
 
@@ -99,21 +88,18 @@ Definition doc_decision (cfg : rsettings) (pr : prod) (tm : term) (sprio : nat) 
 Lemma sr_step_decision cfg pr tm maxprio a acts sh shs sprio :
   shift_prio maxprio a sh = Some sprio ->
   sr_step cfg pr tm maxprio a acts (sh :: shs) =
-  match code_decision cfg pr tm sprio with
+  match cell_decision cfg pr tm sprio with
   | KeepShift => MDone (acts, false)
   | KeepBoth => MDone (acts, true)
-  | KeepReduce =>
-      if length acts =? 1 then MDone (removelast acts, true)
-      else MPanic (if p_prio pr =? sprio then 821 else 851)
+  | KeepReduce => MDone (drop_shifts acts, true)
   end.
 Proof.
-  intros Hs. unfold sr_step, code_decision, decide_impl, decide. rewrite Hs.
+  intros Hs. unfold sr_step, cell_decision, decide. rewrite Hs.
   destruct (Nat.compare_spec (p_prio pr) sprio) as [Heq|Hlt|Hgt].
   - assert (H1 : (sprio <? p_prio pr) = false) by (apply Nat.ltb_ge; lia).
     assert (H2 : (p_prio pr <? sprio) = false) by (apply Nat.ltb_ge; lia).
-    assert (H3 : (p_prio pr =? sprio) = true) by (apply Nat.eqb_eq; lia).
-    rewrite H1, H2, H3, assoc_arm_impl.
-    destruct (effective_assoc (p_assoc pr) (flip_assoc (t_assoc tm))); cbn [assoc_decision].
+    rewrite H1, H2, assoc_arm_decide.
+    destruct (effective_assoc (p_assoc pr) (t_assoc tm)); cbn [assoc_decision].
     + rewrite prefer_flags.
       destruct (shift_preferred _ _ _ _ _); reflexivity.
     + reflexivity.
@@ -122,8 +108,7 @@ Proof.
     assert (H2 : (p_prio pr <? sprio) = true) by (apply Nat.ltb_lt; lia).
     rewrite H1, H2. reflexivity.
   - assert (H1 : (sprio <? p_prio pr) = true) by (apply Nat.ltb_lt; lia).
-    assert (H3 : (p_prio pr =? sprio) = false) by (apply Nat.eqb_neq; lia).
-    rewrite H1, H3. reflexivity.
+    rewrite H1. reflexivity.
 Qed.
 
 (* ------------------------------------------------------------------ *)
@@ -142,7 +127,7 @@ Proof.
   rewrite IH; [reflexivity|]. intros y Hy. apply Hwf. right; exact Hy.
 Qed.
 
-Lemma reduces_prio_sites g rs s : reduces_prio g rs = MPanic s -> s = 867 \/ s = 869.
+Lemma reduces_prio_sites g rs s : reduces_prio g rs = MPanic s -> s = P_RPROD \/ s = P_NOT_REDUCE.
 Proof.
   induction rs as [|x rs IH]; cbn [reduces_prio]; [discriminate|].
   destruct x as [t|q l|]; [intros H; inversion H; auto| |intros H; inversion H; auto].
@@ -200,20 +185,23 @@ Qed.
 (* ------------------------------------------------------------------ *)
 (* the cell function, by cases on the shift-like content of the cell *)
 
+
 Lemma add_reduce_empty g cfg maxprio a p len prod_len pr tm :
   get_prod g p = Some pr -> nth_error (g_terms g) a = Some tm ->
   add_reduce g cfg maxprio a p len prod_len [] = MDone [Reduce p len].
 Proof. intros Hp Ht. unfold add_reduce. rewrite Hp, Ht. reflexivity. Qed.
 
+(* a cell with exactly one Shift/Accept (and any reductions): the shift is kept alone,
+   or removed and the reductions of the cell meet the new one in the R/R step, or
+   everything meets the new one in the R/R step *)
 Lemma add_reduce_one_shift g cfg maxprio a p len prod_len acts pr tm sh sprio :
   get_prod g p = Some pr -> nth_error (g_terms g) a = Some tm ->
   filter is_shiftlike acts = [sh] -> shift_prio maxprio a sh = Some sprio ->
   add_reduce g cfg maxprio a p len prod_len acts =
-  match code_decision cfg pr tm sprio with
+  match cell_decision cfg pr tm sprio with
   | KeepShift => MDone acts
   | KeepReduce =>
-      if length acts =? 1 then MDone [Reduce p len]
-      else MPanic (if p_prio pr =? sprio then 821 else 851)
+      rr_step g cfg pr (Reduce p len) prod_len (filter is_reduce acts) (filter is_reduce acts)
   | KeepBoth => rr_step g cfg pr (Reduce p len) prod_len acts (filter is_reduce acts)
   end.
 Proof.
@@ -221,11 +209,8 @@ Proof.
   destruct acts as [|x0 acts0]; [discriminate|].
   rewrite partition_acts, Hf. change (1 <? length [sh]) with false. cbv iota.
   rewrite (sr_step_decision cfg pr tm maxprio a (x0 :: acts0) sh [] sprio Hs).
-  destruct (code_decision cfg pr tm sprio); [reflexivity| |reflexivity].
-  destruct (length (x0 :: acts0) =? 1) eqn:Hl; [|reflexivity].
-  apply length1_singleton in Hl. destruct Hl as [y Hy]. rewrite Hy in *.
-  cbn [filter] in Hf. destruct (is_shiftlike y) eqn:Hy'; [|discriminate].
-  cbn [removelast filter]. rewrite is_reduce_negb, Hy'. reflexivity.
+  destruct (cell_decision cfg pr tm sprio); [reflexivity| |reflexivity].
+  rewrite drop_shifts_reduces. reflexivity.
 Qed.
 
 Lemma add_reduce_no_shift g cfg maxprio a p len prod_len acts pr tm :
@@ -244,13 +229,27 @@ Qed.
 Lemma add_reduce_many_shifts g cfg maxprio a p len prod_len acts pr tm :
   get_prod g p = Some pr -> nth_error (g_terms g) a = Some tm ->
   2 <= length (filter is_shiftlike acts) ->
-  add_reduce g cfg maxprio a p len prod_len acts = MPanic 796.
+  add_reduce g cfg maxprio a p len prod_len acts = MPanic P_SHIFTS.
 Proof.
   intros Hp Ht Hl. unfold add_reduce. rewrite Hp, Ht.
   destruct acts as [|x0 acts0]; [cbn in Hl; lia|].
   rewrite partition_acts.
   destruct (1 <? length (filter is_shiftlike (x0 :: acts0))) eqn:H1; [reflexivity|].
   apply Nat.ltb_ge in H1. lia.
+Qed.
+
+(* what sr_step leaves in the cell is a sub-list of the cell *)
+Lemma sr_step_sub cfg pr tm maxprio a acts shifts acts1 sr :
+  sr_step cfg pr tm maxprio a acts shifts = MDone (acts1, sr) ->
+  acts1 = acts \/ acts1 = drop_shifts acts.
+Proof.
+  unfold sr_step. intros Hsr.
+  destruct shifts as [|sh shs]; [inversion Hsr; auto|].
+  destruct (shift_prio maxprio a sh) as [sprio|]; [|discriminate].
+  destruct (p_prio pr ?= sprio).
+  - destruct (assoc_arm (p_assoc pr) (t_assoc tm)); inversion Hsr; auto.
+  - inversion Hsr; auto.
+  - inversion Hsr; auto.
 Qed.
 
 (* resolution only removes candidates *)
@@ -268,124 +267,29 @@ Proof.
   destruct (sr_step cfg pr tm maxprio a (x0 :: acts0) (filter is_shiftlike (x0 :: acts0)))
     as [[acts1 sr]|s] eqn:Hsr; [|discriminate].
   assert (Hsub : forall y, In y acts1 -> In y (x0 :: acts0)).
-  { unfold sr_step in Hsr.
-    destruct (filter is_shiftlike (x0 :: acts0)) as [|sh shs].
-    { inversion Hsr; subst. auto. }
-    destruct (shift_prio maxprio a sh) as [sprio|]; [|discriminate].
-    destruct (p_prio pr ?= sprio).
-    - destruct (assoc_arm (p_assoc pr) (t_assoc tm)).
-      + destruct (length (x0 :: acts0) =? 1); [|discriminate].
-        inversion Hsr; subst. intros y Hy. apply In_removelast. exact Hy.
-      + inversion Hsr; subst. auto.
-      + inversion Hsr; subst. auto.
-    - inversion Hsr; subst. auto.
-    - destruct (length (x0 :: acts0) =? 1); [|discriminate].
-      inversion Hsr; subst. intros y Hy. apply In_removelast. exact Hy. }
+  { destruct (sr_step_sub _ _ _ _ _ _ _ _ _ Hsr) as [->| ->]; [auto|].
+    intros y Hy. eapply In_filter_In; exact Hy. }
   destruct sr.
   - destruct (rr_step_subset _ _ _ _ _ _ _ _ H x Hx) as [Hin|Heq]; [left; apply Hsub; exact Hin|right; exact Heq].
   - inversion H; subst. left. apply Hsub. exact Hx.
 Qed.
 
 (* ------------------------------------------------------------------ *)
-(* documented table against implemented table *)
-
-Lemma decide_impl_outside_class pp sp pa ta e ps pse nops nopse :
-  term_assoc_decides_b pp sp ta = false ->
-  decide_impl pp sp pa ta e ps pse nops nopse = decide pp sp pa ta e ps pse nops nopse.
-Proof.
-  unfold term_assoc_decides_b, decide_impl, decide. intros H.
-  destruct ta; [reflexivity| |].
-  - rewrite andb_true_r in H. apply Nat.eqb_neq in H.
-    destruct (sp <? pp) eqn:H1; [reflexivity|]. destruct (pp <? sp) eqn:H2; [reflexivity|].
-    apply Nat.ltb_ge in H1, H2. lia.
-  - rewrite andb_true_r in H. apply Nat.eqb_neq in H.
-    destruct (sp <? pp) eqn:H1; [reflexivity|]. destruct (pp <? sp) eqn:H2; [reflexivity|].
-    apply Nat.ltb_ge in H1, H2. lia.
-Qed.
-
-Lemma decide_impl_inside_class pp sp pa ta e ps pse nops nopse :
-  term_assoc_decides_b pp sp ta = true ->
-  decide_impl pp sp pa ta e ps pse nops nopse <> decide pp sp pa ta e ps pse nops nopse /\
-  decide pp sp pa ta e ps pse nops nopse =
-    (match ta with ALeft => KeepReduce | _ => KeepShift end) /\
-  decide_impl pp sp pa ta e ps pse nops nopse =
-    (match ta with ALeft => KeepShift | _ => KeepReduce end).
-Proof.
-  unfold term_assoc_decides_b, decide_impl, decide. intros H.
-  apply andb_true_iff in H. destruct H as [H Hta]. apply Nat.eqb_eq in H. subst sp.
-  rewrite Nat.ltb_irrefl.
-  destruct ta; [discriminate| |]; cbn; repeat split; congruence.
-Qed.
-
-Lemma reduce_wins_impl_spec pp sp pa ta e ps pse nops nopse :
-  reduce_wins_impl_b pp sp pa ta = true <->
-  decide_impl pp sp pa ta e ps pse nops nopse = KeepReduce.
-Proof.
-  unfold reduce_wins_impl_b, decide_impl, decide.
-  destruct (sp <? pp); [cbn; tauto|]. destruct (pp <? sp); [cbn; split; discriminate|].
-  destruct (effective_assoc pa (flip_assoc ta)); cbn [assoc_decision shift_preferred andb negb].
-  - destruct (shift_preferred e ps pse nops nopse); cbn; split; discriminate.
-  - cbn; tauto.
-  - cbn; split; discriminate.
-Qed.
-
-(* ------------------------------------------------------------------ *)
 (* shift/reduce on a cell that holds exactly the one shift-like action *)
 
-Lemma sr_cell_impl_main g cfg maxprio a p len prod_len pr tm sh sprio :
+Lemma sr_cell_spec_main g cfg maxprio a p len prod_len pr tm sh sprio :
   get_prod g p = Some pr -> nth_error (g_terms g) a = Some tm ->
   is_shiftlike sh = true -> shift_prio maxprio a sh = Some sprio ->
   add_reduce g cfg maxprio a p len prod_len [sh] =
-  MDone (apply_decision (code_decision cfg pr tm sprio) sh (Reduce p len)).
+  MDone (apply_decision (cell_decision cfg pr tm sprio) sh (Reduce p len)).
 Proof.
   intros Hp Ht Hsh Hs.
   rewrite (add_reduce_one_shift g cfg maxprio a p len prod_len [sh] pr tm sh sprio Hp Ht); [|cbn [filter]; rewrite Hsh; reflexivity|exact Hs].
-  destruct (code_decision cfg pr tm sprio); cbn [apply_decision length Nat.eqb]; try reflexivity.
-  cbn [filter]. rewrite is_reduce_negb, Hsh. reflexivity.
+  destruct (cell_decision cfg pr tm sprio); cbn [apply_decision]; try reflexivity;
+    cbn [filter]; rewrite is_reduce_negb, Hsh; reflexivity.
 Qed.
 
-Lemma sr_cell_spec_known_main g cfg maxprio a p len prod_len pr tm sh sprio :
-  get_prod g p = Some pr -> nth_error (g_terms g) a = Some tm ->
-  is_shiftlike sh = true -> shift_prio maxprio a sh = Some sprio ->
-  term_assoc_decides_b (p_prio pr) sprio (t_assoc tm) = false ->
-  add_reduce g cfg maxprio a p len prod_len [sh] =
-  MDone (apply_decision (doc_decision cfg pr tm sprio) sh (Reduce p len)).
-Proof.
-  intros Hp Ht Hsh Hs Hc.
-  rewrite (sr_cell_impl_main g cfg maxprio a p len prod_len pr tm sh sprio Hp Ht Hsh Hs).
-  unfold code_decision, doc_decision. rewrite decide_impl_outside_class; [reflexivity|exact Hc].
-Qed.
-
-Lemma apply_decision_inj d1 d2 sh r :
-  is_shiftlike sh = true -> is_shiftlike r = false ->
-  apply_decision d1 sh r = apply_decision d2 sh r -> d1 = d2.
-Proof.
-  intros Hs Hr. destruct d1, d2; cbn [apply_decision]; intros H; try reflexivity;
-    inversion H; subst; congruence.
-Qed.
-
-(* inside the class the code never does what the documentation says *)
-Lemma sr_cell_class_differs_main g cfg maxprio a p len prod_len pr tm sh sprio :
-  get_prod g p = Some pr -> nth_error (g_terms g) a = Some tm ->
-  is_shiftlike sh = true -> shift_prio maxprio a sh = Some sprio ->
-  term_assoc_decides_b (p_prio pr) sprio (t_assoc tm) = true ->
-  add_reduce g cfg maxprio a p len prod_len [sh] <>
-  MDone (apply_decision (doc_decision cfg pr tm sprio) sh (Reduce p len)) /\
-  add_reduce g cfg maxprio a p len prod_len [sh] =
-  MDone (match t_assoc tm with ALeft => [sh] | _ => [Reduce p len] end).
-Proof.
-  intros Hp Ht Hsh Hs Hc.
-  rewrite (sr_cell_impl_main g cfg maxprio a p len prod_len pr tm sh sprio Hp Ht Hsh Hs).
-  unfold code_decision, doc_decision.
-  destruct (decide_impl_inside_class (p_prio pr) sprio (p_assoc pr) (t_assoc tm) (rhs_is_empty pr)
-              (rs_prefer_shifts cfg) (rs_prefer_shifts_over_empty cfg) (p_nops pr) (p_nopse pr) Hc)
-    as [Hne [Hd Hi]].
-  split.
-  - intros H. inversion H as [H']. apply apply_decision_inj in H'; [exact (Hne H')|exact Hsh|reflexivity].
-  - rewrite Hi. destruct (t_assoc tm); reflexivity.
-Qed.
-
-(* what the property promises about the keywords, and how far it holds *)
+(* the keywords *)
 Lemma sr_prod_keyword_main g cfg maxprio a p len prod_len pr tm sh sprio k :
   get_prod g p = Some pr -> nth_error (g_terms g) a = Some tm ->
   is_shiftlike sh = true -> shift_prio maxprio a sh = Some sprio ->
@@ -394,8 +298,8 @@ Lemma sr_prod_keyword_main g cfg maxprio a p len prod_len pr tm sh sprio k :
   MDone (match k with KwLeft | KwReduce => [Reduce p len] | KwRight | KwShift => [sh] end).
 Proof.
   intros Hp Ht Hsh Hs Hpr Hta Hk.
-  rewrite (sr_cell_impl_main g cfg maxprio a p len prod_len pr tm sh sprio Hp Ht Hsh Hs).
-  unfold code_decision, decide_impl, decide. rewrite Hta, Hk, Hpr, Nat.ltb_irrefl.
+  rewrite (sr_cell_spec_main g cfg maxprio a p len prod_len pr tm sh sprio Hp Ht Hsh Hs).
+  unfold cell_decision, decide. rewrite Hta, Hk, Hpr, Nat.ltb_irrefl.
   destruct k; reflexivity.
 Qed.
 
@@ -404,13 +308,14 @@ Lemma sr_term_keyword_main g cfg maxprio a p len prod_len pr tm sh sprio k :
   is_shiftlike sh = true -> shift_prio maxprio a sh = Some sprio ->
   p_prio pr = sprio -> t_assoc tm = assoc_of_keyword k ->
   add_reduce g cfg maxprio a p len prod_len [sh] =
-  MDone (match k with KwLeft | KwReduce => [sh] | KwRight | KwShift => [Reduce p len] end).
+  MDone (match k with KwLeft | KwReduce => [Reduce p len] | KwRight | KwShift => [sh] end).
 Proof.
   intros Hp Ht Hsh Hs Hpr Hk.
-  rewrite (sr_cell_impl_main g cfg maxprio a p len prod_len pr tm sh sprio Hp Ht Hsh Hs).
-  unfold code_decision, decide_impl, decide. rewrite Hk, Hpr, Nat.ltb_irrefl.
+  rewrite (sr_cell_spec_main g cfg maxprio a p len prod_len pr tm sh sprio Hp Ht Hsh Hs).
+  unfold cell_decision, decide. rewrite Hk, Hpr, Nat.ltb_irrefl.
   destruct k; reflexivity.
 Qed.
+
 
 (* ------------------------------------------------------------------ *)
 (* reduce/reduce on a cell of reductions *)
@@ -661,6 +566,25 @@ Proof.
 Qed.
 
 (* ------------------------------------------------------------------ *)
+
+(* three-way: a reduction that wins against the Shift/Accept of a cell that already holds
+   reductions: the shift is removed and the cell of reductions receives the new one *)
+Lemma sr_three_way_main g cfg maxprio a p len prod_len acts pr tm sh sprio :
+  get_prod g p = Some pr -> nth_error (g_terms g) a = Some tm ->
+  filter is_shiftlike acts = [sh] -> shift_prio maxprio a sh = Some sprio ->
+  cell_decision cfg pr tm sprio = KeepReduce ->
+  filter is_reduce acts <> [] ->
+  add_reduce g cfg maxprio a p len prod_len acts =
+  add_reduce g cfg maxprio a p len prod_len (filter is_reduce acts).
+Proof.
+  intros Hp Ht Hf Hs Hd Hne.
+  rewrite (add_reduce_one_shift g cfg maxprio a p len prod_len acts pr tm sh sprio Hp Ht Hf Hs), Hd.
+  symmetry. apply (add_reduce_no_shift g cfg maxprio a p len prod_len _ pr tm Hp Ht Hne).
+  apply filter_all_false. intros x Hx. apply filter_In in Hx. destruct Hx as [_ Hx].
+  rewrite is_reduce_negb in Hx. apply negb_true_iff in Hx. exact Hx.
+Qed.
+
+(* ------------------------------------------------------------------ *)
 (* panics of the cell function *)
 
 Definition is_some {A : Type} (o : option A) : bool :=
@@ -678,19 +602,6 @@ Definition cell_wf_b (g : grammar) (maxprio : list (nat * nat)) (a p : nat) (act
                     | Reduce q _ => is_some (get_prod g q)
                     | Accept => true
                     end) acts.
-
-(* Known class 2 (key three-way-assert): the cell holds a Shift/Accept together with at
-   least one more action, and the incoming reduction wins against the shift *)
-Definition three_way_b (g : grammar) (maxprio : list (nat * nat)) (a p : nat) (acts : list action) : bool :=
-  match get_prod g p, nth_error (g_terms g) a, filter is_shiftlike acts with
-  | Some pr, Some tm, sh :: _ =>
-      match shift_prio maxprio a sh with
-      | Some sprio =>
-          negb (length acts =? 1) && reduce_wins_impl_b (p_prio pr) sprio (p_assoc pr) (t_assoc tm)
-      | None => false
-      end
-  | _, _, _ => false
-  end.
 
 Lemma cell_wf_reduces g maxprio a p acts :
   cell_wf_b g maxprio a p acts = true -> reduces_wf g (filter is_reduce acts).
@@ -720,18 +631,16 @@ Proof.
   - rewrite rr_step_spec; [eexists; reflexivity|discriminate|exact Hwf].
 Qed.
 
-Lemma no_panic_known_main g cfg maxprio a p len prod_len acts :
+Lemma no_panic_main g cfg maxprio a p len prod_len acts :
   cell_wf_b g maxprio a p acts = true ->
-  three_way_b g maxprio a p acts = false ->
   exists acts', add_reduce g cfg maxprio a p len prod_len acts = MDone acts'.
 Proof.
-  intros Hwf Htw. pose proof Hwf as Hwf0. unfold cell_wf_b in Hwf.
+  intros Hwf. pose proof Hwf as Hwf0. unfold cell_wf_b in Hwf.
   repeat (apply andb_true_iff in Hwf; destruct Hwf as [Hwf ?]).
   destruct (get_prod g p) as [pr|] eqn:Hp; [|discriminate].
   destruct (nth_error (g_terms g) a) as [tm|] eqn:Ht; [|discriminate].
   destruct acts as [|x0 acts0].
   { eexists. eapply add_reduce_empty; eassumption. }
-  unfold three_way_b in Htw. rewrite Hp, Ht in Htw.
   destruct (filter is_shiftlike (x0 :: acts0)) as [|sh [|sh2 shs]] eqn:Hf.
   - rewrite (add_reduce_no_shift g cfg maxprio a p len prod_len _ pr tm Hp Ht); [|discriminate|exact Hf].
     apply rr_step_done.
@@ -742,42 +651,17 @@ Proof.
     { apply filter_In. rewrite Hf. left; reflexivity. }
     destruct Hin as [Hin Hsh].
     destruct (cell_wf_shift_prio g maxprio a p _ sh Hwf0 Hin Hsh) as [sprio Hs].
-    rewrite Hs in Htw.
     rewrite (add_reduce_one_shift g cfg maxprio a p len prod_len _ pr tm sh sprio Hp Ht Hf Hs).
-    destruct (code_decision cfg pr tm sprio) eqn:Hd.
+    destruct (cell_decision cfg pr tm sprio).
     + eexists; reflexivity.
-    + assert (Hrw : reduce_wins_impl_b (p_prio pr) sprio (p_assoc pr) (t_assoc tm) = true).
-      { eapply reduce_wins_impl_spec. exact Hd. }
-      rewrite Hrw, andb_true_r in Htw. apply negb_false_iff in Htw. rewrite Htw.
-      eexists; reflexivity.
+    + apply rr_step_done. eapply cell_wf_reduces; exact Hwf0.
     + apply rr_step_done. eapply cell_wf_reduces; exact Hwf0.
   - apply Nat.leb_le in H0. cbn [length] in H0. lia.
 Qed.
 
-Lemma three_way_panics_main g cfg maxprio a p len prod_len acts :
-  cell_wf_b g maxprio a p acts = true ->
-  three_way_b g maxprio a p acts = true ->
-  add_reduce g cfg maxprio a p len prod_len acts = MPanic 821 \/
-  add_reduce g cfg maxprio a p len prod_len acts = MPanic 851.
-Proof.
-  intros Hwf Htw. pose proof Hwf as Hwf0. unfold cell_wf_b in Hwf.
-  repeat (apply andb_true_iff in Hwf; destruct Hwf as [Hwf ?]).
-  unfold three_way_b in Htw.
-  destruct (get_prod g p) as [pr|] eqn:Hp; [|discriminate].
-  destruct (nth_error (g_terms g) a) as [tm|] eqn:Ht; [|discriminate].
-  destruct (filter is_shiftlike acts) as [|sh [|sh2 shs]] eqn:Hf; [discriminate| |].
-  - destruct (shift_prio maxprio a sh) as [sprio|] eqn:Hs; [|discriminate].
-    apply andb_true_iff in Htw. destruct Htw as [Hlen Hrw]. apply negb_true_iff in Hlen.
-    rewrite (add_reduce_one_shift g cfg maxprio a p len prod_len _ pr tm sh sprio Hp Ht Hf Hs).
-    assert (Hd : code_decision cfg pr tm sprio = KeepReduce).
-    { unfold code_decision. eapply reduce_wins_impl_spec. exact Hrw. }
-    rewrite Hd, Hlen. destruct (p_prio pr =? sprio); [left|right]; reflexivity.
-  - apply Nat.leb_le in H0. cbn [length] in H0. lia.
-Qed.
-
-(* the panic! at line 869 is dead code, and no other site exists *)
+(* the panic! on a non-Reduce action is dead, and no other site exists *)
 Lemma reduces_prio_filter_site g acts s :
-  reduces_prio g (filter is_reduce acts) = MPanic s -> s = 867.
+  reduces_prio g (filter is_reduce acts) = MPanic s -> s = P_RPROD.
 Proof.
   induction acts as [|x acts IH]; cbn [filter reduces_prio]; [discriminate|].
   destruct x as [t|q l|]; cbn [is_reduce]; [exact IH| |exact IH].
@@ -788,14 +672,14 @@ Qed.
 
 Lemma panic_sites_main g cfg maxprio a p len prod_len acts s :
   add_reduce g cfg maxprio a p len prod_len acts = MPanic s ->
-  In s [765; 782; 796; 805; 821; 851; 867].
+  In s [P_PROD; P_TERM; P_SHIFTS; P_MAXPRIO; P_RPROD].
 Proof.
   unfold add_reduce. intros H.
-  destruct (get_prod g p) as [pr|]; [|inversion H; cbn; tauto].
-  destruct (nth_error (g_terms g) a) as [tm|]; [|inversion H; cbn; tauto].
+  destruct (get_prod g p) as [pr|]; [|inversion H; cbn; auto 10].
+  destruct (nth_error (g_terms g) a) as [tm|]; [|inversion H; cbn; auto 10].
   destruct acts as [|x0 acts0]; [discriminate|].
   rewrite partition_acts in H.
-  destruct (1 <? length (filter is_shiftlike (x0 :: acts0))); [inversion H; cbn; tauto|].
+  destruct (1 <? length (filter is_shiftlike (x0 :: acts0))); [inversion H; cbn; auto 10|].
   destruct (sr_step cfg pr tm maxprio a (x0 :: acts0) (filter is_shiftlike (x0 :: acts0)))
     as [[acts1 sr]|s1] eqn:Hsr.
   - destruct sr; [|discriminate].
@@ -807,21 +691,18 @@ Proof.
       destruct (forallb _ prios); [discriminate|].
       destruct (rs_glr cfg); [discriminate|].
       destruct (_ || _); discriminate.
-    + inversion H; subst. apply reduces_prio_filter_site in Hrp. subst. cbn; tauto.
+    + inversion H; subst. apply reduces_prio_filter_site in Hrp. subst. cbn; auto 10.
   - inversion H; subst. unfold sr_step in Hsr.
     destruct (filter is_shiftlike (x0 :: acts0)) as [|sh shs]; [discriminate|].
-    destruct (shift_prio maxprio a sh) as [sprio|]; [|inversion Hsr; cbn; tauto].
-    destruct (p_prio pr ?= sprio).
-    + destruct (assoc_arm (p_assoc pr) (t_assoc tm)); try discriminate.
-      destruct (length (x0 :: acts0) =? 1); [discriminate|inversion Hsr; cbn; tauto].
-    + discriminate.
-    + destruct (length (x0 :: acts0) =? 1); [discriminate|inversion Hsr; cbn; tauto].
+    destruct (shift_prio maxprio a sh) as [sprio|]; [|inversion Hsr; cbn; auto 10].
+    destruct (p_prio pr ?= sprio); [|discriminate|discriminate].
+    destruct (assoc_arm (p_assoc pr) (t_assoc tm)); discriminate.
 Qed.
 
 (* ------------------------------------------------------------------ *)
 (* State level: on the cells calc_states leaves behind, with max_prior_for_term
-   computed from the items, the only way calculate_reductions can abort in a state
-   is the three-way assert. *)
+   computed from the items, calculate_reductions cannot abort in a state that
+   passes state_wf_b. *)
 
 Definition cellinv (g : grammar) (maxprio : list (nat * nat)) (a : nat) (acts : list action) : Prop :=
   length (filter is_shiftlike acts) <= 1 /\
@@ -843,16 +724,6 @@ Proof.
   - destruct (alookup a maxprio); [reflexivity|congruence].
   - destruct (get_prod g q); [reflexivity|congruence].
   - reflexivity.
-Qed.
-
-Lemma count_removelast {A} (f : A -> bool) (l : list A) :
-  length (filter f (removelast l)) <= length (filter f l).
-Proof.
-  induction l as [|x l IH]; [cbn [removelast filter length]; lia|].
-  destruct l as [|y l]; [cbn [removelast filter length]; lia|].
-  change (removelast (x :: y :: l)) with (x :: removelast (y :: l)).
-  remember (y :: l) as l1 eqn:El1.
-  cbn [filter]. destruct (f x); cbn [length]; lia.
 Qed.
 
 Lemma count_filter {A} (f h : A -> bool) (l : list A) :
@@ -885,6 +756,7 @@ Proof.
   - inversion H; subst. apply count_filter.
 Qed.
 
+
 Lemma add_reduce_shift_count g cfg maxprio a p len prod_len acts acts' :
   add_reduce g cfg maxprio a p len prod_len acts = MDone acts' ->
   length (filter is_shiftlike acts') <= length (filter is_shiftlike acts).
@@ -899,20 +771,8 @@ Proof.
   destruct (sr_step cfg pr tm maxprio a (x0 :: acts0) (filter is_shiftlike (x0 :: acts0)))
     as [[acts1 sr]|s] eqn:Hsr; [|discriminate].
   assert (Hsub : length (filter is_shiftlike acts1) <= length (filter is_shiftlike (x0 :: acts0))).
-  { unfold sr_step in Hsr.
-    destruct (filter is_shiftlike (x0 :: acts0)) as [|sh shs] eqn:Hf.
-    { inversion Hsr; subst. rewrite Hf. lia. }
-    rewrite <- Hf.
-    destruct (shift_prio maxprio a sh) as [sprio|]; [|discriminate].
-    destruct (p_prio pr ?= sprio).
-    - destruct (assoc_arm (p_assoc pr) (t_assoc tm)).
-      + destruct (length (x0 :: acts0) =? 1); [|discriminate].
-        inversion Hsr; subst. exact (count_removelast is_shiftlike (x0 :: acts0)).
-      + inversion Hsr; subst. lia.
-      + inversion Hsr; subst. lia.
-    - inversion Hsr; subst. lia.
-    - destruct (length (x0 :: acts0) =? 1); [|discriminate].
-      inversion Hsr; subst. exact (count_removelast is_shiftlike (x0 :: acts0)). }
+  { destruct (sr_step_sub _ _ _ _ _ _ _ _ _ Hsr) as [->| ->]; [lia|].
+    unfold drop_shifts. apply count_filter. }
   destruct sr.
   - apply rr_step_shift_count in H. lia.
   - inversion H; subst. exact Hsub.
@@ -931,19 +791,14 @@ Proof.
   - exact Hp.
 Qed.
 
-Lemma add_reduce_cellinv_panic g cfg maxprio a p len prod_len acts s :
+Lemma add_reduce_cellinv_done g cfg maxprio a p len prod_len acts :
   get_prod g p <> None -> nth_error (g_terms g) a <> None -> cellinv g maxprio a acts ->
-  add_reduce g cfg maxprio a p len prod_len acts = MPanic s -> s = 821 \/ s = 851.
+  exists acts', add_reduce g cfg maxprio a p len prod_len acts = MDone acts'.
 Proof.
-  intros Hp Ht Hinv H.
+  intros Hp Ht Hinv.
   destruct (get_prod g p) as [pr|] eqn:Hpe; [|congruence].
   destruct (nth_error (g_terms g) a) as [tm|] eqn:Hte; [|congruence].
-  pose proof (cellinv_wf g maxprio a p acts pr tm Hpe Hte Hinv) as Hwf.
-  destruct (three_way_b g maxprio a p acts) eqn:Htw.
-  - destruct (three_way_panics_main g cfg maxprio a p len prod_len acts Hwf Htw) as [E|E];
-      rewrite E in H; inversion H; auto.
-  - destruct (no_panic_known_main g cfg maxprio a p len prod_len acts Hwf Htw) as [acts' E].
-    rewrite E in H. discriminate.
+  apply no_panic_main. eapply cellinv_wf; eassumption.
 Qed.
 
 (* set_nth *)
@@ -967,15 +822,14 @@ Definition cells_inv (g : grammar) (maxprio : list (nat * nat)) (cells : list (l
   (forall a acts, nth_error cells a = Some acts -> cellinv g maxprio a acts) /\
   (forall c0, nth_error cells 0 = Some c0 -> length (filter is_shiftlike c0) + k <= 1).
 
+
 Lemma apply_follows_inv g cfg maxprio p len prod_len : forall fs cells k,
   get_prod g p <> None -> (forall f, In f fs -> f < g_nterm g) ->
   cells_inv g maxprio cells k ->
-  match apply_follows g cfg maxprio p len prod_len fs cells with
-  | RDone cells' => cells_inv g maxprio cells' k
-  | RPanic s => s = 821 \/ s = 851
-  end.
+  exists cells', apply_follows g cfg maxprio p len prod_len fs cells = RDone cells' /\
+                 cells_inv g maxprio cells' k.
 Proof.
-  induction fs as [|f fs IH]; intros cells k Hp Hfs Hinv; cbn [apply_follows]; [exact Hinv|].
+  induction fs as [|f fs IH]; intros cells k Hp Hfs Hinv; cbn [apply_follows]; [exists cells; auto|].
   assert (Hf : f < g_nterm g) by (apply Hfs; left; reflexivity).
   destruct (nth_error (g_terms g) f) as [tm|] eqn:Ht.
   2:{ apply nth_error_None in Ht. unfold g_nterm in Hf. lia. }
@@ -983,18 +837,19 @@ Proof.
   destruct (nth_error cells f) as [acts|] eqn:Hc.
   2:{ apply nth_error_None in Hc. lia. }
   pose proof (Hcells f acts Hc) as Hci.
-  destruct (add_reduce g cfg maxprio f p len prod_len acts) as [acts'|s] eqn:Har.
-  - destruct (add_reduce_cellinv _ _ _ _ _ _ _ _ _ Hp Hci Har) as [Hci' Hcount].
-    apply IH; [exact Hp|intros f' Hf'; apply Hfs; right; exact Hf'|].
-    split; [rewrite set_nth_length; exact Hlen|]. split.
-    + intros a acts2 Ha. destruct (Nat.eq_dec a f) as [->|Hne].
-      * rewrite set_nth_same in Ha by lia. inversion Ha; subst. exact Hci'.
-      * rewrite set_nth_other in Ha by exact Hne. apply Hcells. exact Ha.
-    + intros c0 Hc0. destruct (Nat.eq_dec 0 f) as [<-|Hne].
-      * rewrite set_nth_same in Hc0 by lia. inversion Hc0; subst.
-        specialize (H0 acts Hc). lia.
-      * rewrite set_nth_other in Hc0 by exact Hne. apply H0. exact Hc0.
-  - apply (add_reduce_cellinv_panic g cfg maxprio f p len prod_len acts s Hp); [congruence|exact Hci|exact Har].
+  destruct (add_reduce_cellinv_done g cfg maxprio f p len prod_len acts Hp) as [acts' Har];
+    [congruence|exact Hci|].
+  rewrite Har.
+  destruct (add_reduce_cellinv _ _ _ _ _ _ _ _ _ Hp Hci Har) as [Hci' Hcount].
+  apply IH; [exact Hp|intros f' Hf'; apply Hfs; right; exact Hf'|].
+  split; [rewrite set_nth_length; exact Hlen|]. split.
+  - intros a acts2 Ha. destruct (Nat.eq_dec a f) as [->|Hne].
+    + rewrite set_nth_same in Ha by lia. inversion Ha; subst. exact Hci'.
+    + rewrite set_nth_other in Ha by exact Hne. apply Hcells. exact Ha.
+  - intros c0 Hc0. destruct (Nat.eq_dec 0 f) as [<-|Hne].
+    + rewrite set_nth_same in Hc0 by lia. inversion Hc0; subst.
+      specialize (H0 acts Hc). lia.
+    + rewrite set_nth_other in Hc0 by exact Hne. apply H0. exact Hc0.
 Qed.
 
 (* the item pushes Accept *)
@@ -1016,14 +871,15 @@ Definition state_wf_b (g : grammar) (rn : option (list nat)) (st : state) : bool
   negb (memb STOP (next_syms g st)) &&
   (0 <? g_nterm g).
 
+
 Lemma reduce_items_inv g cfg rn maxprio : forall items cells k,
   forallb (item_wf_b g rn) items = true ->
   length (filter (aug_complete_b g) items) <= k ->
   0 < g_nterm g ->
   cells_inv g maxprio cells k ->
-  forall s, reduce_items g cfg rn maxprio items cells = RPanic s -> s = 821 \/ s = 851.
+  exists cells', reduce_items g cfg rn maxprio items cells = RDone cells'.
 Proof.
-  induction items as [|it items IH]; intros cells k Hwf Hk Hnt Hinv s; cbn [reduce_items]; [discriminate|].
+  induction items as [|it items IH]; intros cells k Hwf Hk Hnt Hinv; cbn [reduce_items]; [exists cells; reflexivity|].
   cbn [forallb] in Hwf. apply andb_true_iff in Hwf. destruct Hwf as [Hit Hwf].
   unfold item_wf_b in Hit. apply andb_true_iff in Hit. destruct Hit as [Hit Hrn].
   apply andb_true_iff in Hit. destruct Hit as [Hpr Hfol].
@@ -1055,14 +911,10 @@ Proof.
       * intros c0' Hc0'. cbn in Hc0'. inversion Hc0'; subst.
         rewrite filter_app. cbn [filter is_shiftlike]. rewrite app_length. cbn [length]. lia.
     + apply (IH cells k); assumption.
-  - pose proof (apply_follows_inv g cfg maxprio (i_prod it) (i_pos it) (length (p_rhs pr))
-                  (i_follow it) cells k) as Haf.
-    destruct (apply_follows g cfg maxprio (i_prod it) (i_pos it) (length (p_rhs pr)) (i_follow it) cells)
-      as [cells'|s2] eqn:Hapf.
-    + apply (IH cells' k); try assumption. apply Haf; [congruence| |exact Hinv].
-      intros f Hf. rewrite forallb_forall in Hfol. apply Nat.ltb_lt. apply Hfol. exact Hf.
-    + intros H; inversion H; subst. apply Haf; [congruence| |exact Hinv].
-      intros f Hf. rewrite forallb_forall in Hfol. apply Nat.ltb_lt. apply Hfol. exact Hf.
+  - destruct (apply_follows_inv g cfg maxprio (i_prod it) (i_pos it) (length (p_rhs pr))
+                (i_follow it) cells k) as [cells' [Hapf Hinv']]; [congruence| |exact Hinv|].
+    + intros f Hf. rewrite forallb_forall in Hfol. apply Nat.ltb_lt. apply Hfol. exact Hf.
+    + rewrite Hapf. apply (IH cells' k); assumption.
 Qed.
 
 Lemma nth_error_map_seq {A} (f : nat -> A) n a :
@@ -1106,14 +958,15 @@ Proof.
     rewrite Hstop. cbn. lia.
 Qed.
 
-Lemma state_panic_only_three_way_main g cfg rn st real s :
+
+Lemma state_no_panic_main g cfg rn st real :
   state_wf_b g rn st = true ->
-  calc_reductions_state g cfg rn st (maxprio_of_items g (s_items st)) (init_cells g st real) = RPanic s ->
-  s = 821 \/ s = 851.
+  exists cells,
+    calc_reductions_state g cfg rn st (maxprio_of_items g (s_items st)) (init_cells g st real) = RDone cells.
 Proof.
-  unfold state_wf_b, calc_reductions_state. intros Hwf H.
+  unfold state_wf_b, calc_reductions_state. intros Hwf.
   repeat (apply andb_true_iff in Hwf; destruct Hwf as [Hwf ?]).
-  apply Nat.leb_le in H2. apply negb_true_iff in H1. apply Nat.ltb_lt in H0.
+  apply Nat.leb_le in H1. apply negb_true_iff in H0. apply Nat.ltb_lt in H.
   eapply (reduce_items_inv g cfg rn _ (s_items st) _ 1); try eassumption.
-  apply init_cells_inv; [exact H1|lia].
+  apply init_cells_inv; [exact H0|lia].
 Qed.
